@@ -337,7 +337,11 @@ func cmdXform(args []string) int {
 		go func(i int) {
 			defer wg.Done()
 			defer func() { <-sem }()
-			evs[i] = runXform(cases[i])
+			if !guard(func() { evs[i] = runXform(cases[i]) }) {
+				evs[i] = tr.Ev{"ev": "STAGE", "id": cases[i].ID, "t": cases[i].T, "shape": cases[i].Shape, "size": cases[i].Size, "hint": cases[i].Hint,
+					"entropy": cases[i].Entropy, "fwd": "hang", "fwdPanic": "", "outLen": 0, "maxLen": 0, "srcIntact": true, "inv": "none", "invPanic": "",
+					"invLen": 0, "restored": false, "read": 0, "skip": -1, "chain": isChain(cases[i].T)}
+			}
 			b, _ := json.Marshal(cases[i])
 			evs[i]["desc"] = string(b)
 		}(i)
